@@ -21,6 +21,8 @@ pub enum Step {
     Cancel,
     SysYield,
     SysCancel,
+    /// (coroutine 0 only) resume coroutine 1 once from inside the body; not a yield
+    Nest,
 }
 
 pub const STEPS: [Step; 6] = [
@@ -41,9 +43,13 @@ impl Step {
             Step::Cancel => "Cancel",
             Step::SysYield => "SysYield",
             Step::SysCancel => "SysCancel",
+            Step::Nest => "Nest",
         }
     }
     fn from(s: &str) -> Option<Step> {
+        if s == "Nest" {
+            return Some(Step::Nest);
+        }
         STEPS.iter().copied().find(|x| x.name() == s)
     }
     fn terminal(self) -> bool {
@@ -97,10 +103,22 @@ impl Case {
 /// number of resumes program needs: one per step up to and including a terminal step, plus the
 /// final one that lets it return
 fn resumes(p: &[Step]) -> usize {
-    match p.iter().position(|s| s.terminal()) {
+    let y = yields(p);
+    match y.iter().position(|s| s.terminal()) {
         Some(i) => i + 1,
-        None => p.len() + 1,
+        None => y.len() + 1,
     }
+}
+
+/// the yielding steps of a program (Nest does not yield)
+fn yields(p: &[Step]) -> Vec<Step> {
+    p.iter().copied().filter(|s| *s != Step::Nest).collect()
+}
+
+/// Nest steps that are executed (those before a terminal step)
+fn nests(p: &[Step]) -> usize {
+    let end = p.iter().position(|s| s.terminal()).unwrap_or(p.len());
+    p[..end].iter().filter(|s| **s == Step::Nest).count()
 }
 
 fn programs(max_len: usize) -> Vec<Vec<Step>> {
@@ -147,6 +165,44 @@ pub fn cases(tier: &str) -> Vec<Case> {
             }
         }
     }
+    // nested: coroutine 0 resumes coroutine 1 from inside its body
+    let inner = programs(2);
+    let outer: Vec<Vec<Step>> = {
+        let mut alpha: Vec<Step> = STEPS.to_vec();
+        alpha.push(Step::Nest);
+        let mut out: Vec<Vec<Step>> = vec![];
+        let mut level: Vec<Vec<Step>> = vec![vec![]];
+        for _ in 0..(if tier == "thorough" { 3 } else { 2 }) {
+            let mut next = Vec::new();
+            for p in &level {
+                if p.last().is_some_and(|s| s.terminal()) {
+                    continue;
+                }
+                for st in &alpha {
+                    let mut q = p.clone();
+                    q.push(*st);
+                    next.push(q);
+                }
+            }
+            out.extend(next.iter().filter(|p| p.contains(&Step::Nest)).cloned());
+            level = next;
+        }
+        out
+    };
+    for a in &outer {
+        for b in &inner {
+            let nb = resumes(b);
+            if nests(a) > nb {
+                continue;
+            }
+            for order in interleavings(&[resumes(a), nb - nests(a)]) {
+                out.push(Case {
+                    programs: vec![a.clone(), b.clone()],
+                    order,
+                });
+            }
+        }
+    }
     // three coroutines
     let ps = programs(l3);
     for a in &ps {
@@ -164,16 +220,47 @@ pub fn cases(tier: &str) -> Vec<Case> {
     out
 }
 
+struct Shared {
+    cos: Vec<Option<Box<SchedulableCoroutine<'static>>>>,
+    step: Vec<usize>,
+    fd: i32,
+}
+
+/// resume coroutine i once (playing the scheduler for a parked syscall) and emit the record
+#[allow(dangerous_implicit_autorefs)]
+unsafe fn resume_one(sh: *mut Shared, i: usize, nested: bool) {
+    let co: *mut SchedulableCoroutine<'static> = &mut **(*sh).cos[i].as_mut().expect("coroutine");
+    if let CoroutineState::Syscall((), name, SyscallState::Suspend(_)) = (*co).state() {
+        (*co).syscall((), name, SyscallState::Timeout).expect("timeout transition");
+    }
+    let r = (*co).resume();
+    let s = match r {
+        Ok(st) => state_str(&st),
+        Err(e) => format!("Err({e})"),
+    };
+    let k = (*sh).step[i];
+    (*sh).step[i] += 1;
+    Emitter::from_fd((*sh).fd).emit(json!({"t":"resume","co":i,"k":k,"state":s,"nested":nested}));
+}
+
+#[allow(dangerous_implicit_autorefs)]
 pub fn exec(case: &Case, em: &mut Emitter) {
     open_coroutine_core::verif::clock_enable(T0);
-    let mut cos: Vec<SchedulableCoroutine<'static>> = Vec::new();
+    let m = case.programs.len();
+    let sh: *mut Shared = Box::into_raw(Box::new(Shared { cos: (0..m).map(|_| None).collect(), step: vec![0; m], fd: em.raw_fd() }));
     for (i, prog) in case.programs.iter().enumerate() {
         let prog = prog.clone();
+        let shp = sh as usize;
         let co = open_coroutine_core::co!(
             Some(format!("c09-{i}")),
             move |s: &Suspender<(), ()>, ()| {
-                for (k, st) in prog.iter().enumerate() {
+                let mut k = 0usize; // index among the yielding steps
+                for st in prog.iter() {
                     match st {
+                        Step::Nest => {
+                            unsafe { resume_one(shp as *mut Shared, 1, true) };
+                            continue;
+                        }
                         Step::Suspend => s.suspend(),
                         Step::Delay0 => s.delay(Duration::ZERO),
                         Step::Until => s.until(ts_of(i, k, *st)),
@@ -196,32 +283,20 @@ pub fn exec(case: &Case, em: &mut Emitter) {
                             s.cancel()
                         }
                     }
+                    k += 1;
                 }
                 Some(i)
             },
             Some(64 * 1024)
         )
         .expect("create coroutine");
-        cos.push(co);
+        unsafe { (*sh).cos[i] = Some(Box::new(co)) };
     }
-    let mut step = vec![0usize; cos.len()];
     for &i in &case.order {
-        // play the scheduler: a coroutine parked in Syscall(Suspend) is handed back as Timeout
-        if let CoroutineState::Syscall((), name, SyscallState::Suspend(_)) = cos[i].state() {
-            cos[i]
-                .syscall((), name, SyscallState::Timeout)
-                .expect("timeout transition");
-        }
-        let r = cos[i].resume();
-        let s = match r {
-            Ok(st) => state_str(&st),
-            Err(e) => format!("Err({e})"),
-        };
-        em.emit(json!({"t":"resume","co":i,"k":step[i],"state":s}));
-        step[i] += 1;
+        unsafe { resume_one(sh, i, false) };
     }
     // unfinished coroutines are simply dropped (force_reset)
-    drop(cos);
+    drop(unsafe { Box::from_raw(sh) });
 }
 
 fn kind(i: usize, k: usize, st: Option<Step>) -> Vec<String> {
@@ -235,6 +310,7 @@ fn kind(i: usize, k: usize, st: Option<Step>) -> Vec<String> {
         // a cancel requested from inside a syscall state: the statement does not say which of
         // the two it must be reported as – both are accepted for the requester itself
         Some(Step::SysCancel) => vec!["Syscall(sleep,Executing)".into(), "Cancelled".into()],
+        Some(Step::Nest) => unreachable!("Nest is not a yielding step"),
     }
 }
 
@@ -249,10 +325,14 @@ pub fn judge(case: &Case, res: &ChildResult, rep: &mut Report) {
         return;
     }
     let rs = res.find("resume");
-    if rs.len() != case.order.len() {
+    let expected_records = case.order.len() + nests(&case.programs[0]);
+    if rs.len() != expected_records {
         rep.machinery_errors
-            .push(format!("c09: {} resume records for {} resumes", rs.len(), case.order.len()));
+            .push(format!("c09: {} resume records for {} resumes in {}", rs.len(), expected_records, case.to_json()));
         return;
+    }
+    if nests(&case.programs[0]) > 0 {
+        rep.witness("cases_with_nested_resume");
     }
     // which requests were made so far by whom (for the witness class)
     let mut made: Vec<(usize, Step, u64, bool)> = Vec::new();
@@ -261,7 +341,7 @@ pub fn judge(case: &Case, res: &ChildResult, rep: &mut Report) {
         let i = r["co"].as_u64().unwrap() as usize;
         let k = r["k"].as_u64().unwrap() as usize;
         let got = r["state"].as_str().unwrap().to_string();
-        let st = case.programs[i].get(k).copied();
+        let st = yields(&case.programs[i]).get(k).copied();
         let ok = kind(i, k, st);
         if !ok.contains(&got) {
             // attribute: whose request is this?
@@ -318,7 +398,7 @@ pub fn run(tier: &str, rep: &mut Report) {
         "resume_orders": "all interleavings",
         "cases": cs.len(),
     });
-    rep.require(&["cases_with_syscall_state_yield_next_to_other_coroutines"]);
+    rep.require(&["cases_with_syscall_state_yield_next_to_other_coroutines", "cases_with_nested_resume"]);
     for c in cs.iter().step_by((cs.len() / 4).max(1)).take(4) {
         rep.sample(c.to_json());
     }
